@@ -50,3 +50,14 @@ MUTANTS += [
     dict(id="c04-except-exception-only", property="C04", edits=[(A, "        except BaseException:\n            set_shape_memo(", "        except Exception:\n            set_shape_memo(")]),
     dict(id="c04-pytree-except-exception-only", property="C04", edits=[(P, "        except BaseException:\n            set_shape_memo(", "        except Exception:\n            set_shape_memo(")]),
 ]
+
+MUTANTS += [
+    # ---- C02
+    dict(id="c02-dataclass-not-wrapped", property="C02", edits=[(D, "            fn.__init__ = jaxtyped(fn.__init__, typechecker=typechecker)\n", "            pass\n")]),
+    dict(id="c02-return-not-checked", property="C02", edits=[(D, "if full_signature.return_annotation is not inspect.Signature.empty:", "if False:")]),
+    dict(id="c02-bcast1-binds", property="C02", edits=[(A, """        elif cls_dim.broadcastable and obj_size == 1:
+            pass""", """        elif cls_dim.broadcastable and obj_size == 1:
+            if type(cls_dim) is _NamedDim and not cls_dim.treepath:
+                single_memo.setdefault(cls_dim.name, 1)""")]),
+    dict(id="c02-prevB-nowF-unchecked", property="C02", edits=[(A, "if not broadcastable and broadcast_shape != new_shape:", "if False:")]),
+]
